@@ -11,7 +11,7 @@ one() {
   (cd "$wt" && GOFLAGS=-mod=mod GOPROXY=off GOSUMDB=off GOTOOLCHAIN=local go build ./... >/dev/null 2>&1) || { echo "$id MERGE-BROKEN (the patch no longer builds on the moved tree)"; git -C /repo worktree remove --force "$wt"; exit 0; }
   ln -s "${VERIF_KF:-/verif/known_findings.json}" "$vd/known_findings.json"; ln -s "${VERIF_TOOLS:-/verif/tools}" "$vd/tools"
   out="$d/.matrix.txt"; : > "$out"
-  for p in C01 C02 C03 C04 C05 C06 C07 C08 C09 C10 C11 C12 C13 C14 C15 C16 C17 C18 C19; do
+  for p in ${CHECKS:-C01 C02 C03 C04 C05 C06 C07 C08 C09 C10 C11 C12 C13 C14 C15 C16 C17 C18 C19}; do
     VERIF_REPO="$wt" VERIF_DIR="$vd" timeout 900 ${JSVERIF_BIN:-/verif/bin/jsverif} check $p ${TIER:-quick} 2>&1 | grep -a "^VIOLATION" | sed -E "s/^VIOLATION property=([A-Z0-9]+) replay=[^ ]+ rule=([^ ]+) .*/\1 \2/" | sort -u >> "$out"
   done
   git -C /repo worktree remove --force "$wt"; rm -rf "$vd"
